@@ -96,10 +96,17 @@ def run_verus(path, rlimit, extra=(), timeout=1800):
     cmd = ['verus', os.path.basename(path), '--edition', '2024', '--triggers-mode', 'silent', '--output-json',
            '--time', '--rlimit', str(rlimit)] + list(extra)
     t0 = time.time()
+    import signal
+    p = subprocess.Popen(cmd, cwd=os.path.dirname(path), stdout=subprocess.PIPE, stderr=subprocess.PIPE, text=True,
+                         start_new_session=True)
     try:
-        p = subprocess.run(cmd, cwd=os.path.dirname(path), capture_output=True, text=True, timeout=timeout)
-        out, err, rc = p.stdout, p.stderr, p.returncode
-    except subprocess.TimeoutExpired as e:
+        out, err = p.communicate(timeout=timeout)
+        rc = p.returncode
+    except subprocess.TimeoutExpired:
+        try:
+            os.killpg(p.pid, signal.SIGKILL)
+        except OSError:
+            pass
         out, err, rc = '', 'TIMEOUT after %ds' % timeout, -9
     wall = time.time() - t0
     js = None
